@@ -83,7 +83,16 @@ def backendLine (s : BState) (line : String) : BState × List String :=
         | some (_, b) => (s, [s!"snap {fmtSym v} {b}"])
         | none => (s, [s!"snap {fmtSym v} <never-stored>"])
       | none => (s, ["bad-op"])
-  | "REOPEN" :: _ => (s, ["reopened"])
+  | ["REOPEN", _, "!accepted", p, b] =>
+    -- a stopped process came back and finished its interrupted add_version
+    match symId p with
+    | some p =>
+      let fresh := s.srv.versions.length + 1
+      let (srv', r) := s.srv.addVersion p b fresh
+      ({ s with srv := srv' }, [match r with | .ok id => s!"reopened accepted {fmtSym id}" | .expected _ => "reopened accepted-but-not-acceptable"])
+    | none => (s, ["bad-op"])
+  | ["REOPEN", _] => (s, ["reopened"])
+  | "REOPEN" :: _ => (s, ["reopened neither-accepted-nor-absent"])
   | "KEY" :: _ | "OPEN" :: _ =>
     -- what the backend really stored for a version: opened with a key the model derives itself
     let (ss, outs) := sealLine s.sealSt line
@@ -141,6 +150,15 @@ def bjAnswer (j : BJ) (l : String) : BJ :=
     | some v, ["interrupted", "stored"] => { j with snaps := j.snaps ++ [(v, b)] }
     | some _, ["interrupted", "absent"] => j
     | _, _ => j.fail s!"atomic snapshot {l.take 60}"
+  | ["REOPEN", _, "!accepted", p, b] =>
+    match symId p, ws with
+    | some p, ["reopened", "accepted", v] =>
+      let k := (symId v).getD 0
+      let j := if j.accepted.isEmpty || p == j.latest then j
+               else j.fail s!"atomic late-accepted-parent-{fmtSym p}-while-latest-{fmtSym j.latest}"
+      { j with accepted := j.accepted ++ [(k, p, b)] }
+    | _, _ => j.fail s!"atomic {l.take 60}"
+  | "REOPEN" :: _ => if l == "reopened" then j else j.fail s!"atomic {l.take 60}"
   | "EP" :: _ :: _ :: k :: _ =>
     let j := { j with epCreated := j.epCreated ++ [k.toNat?.getD 0] }
     if l == "sync ok" || l == "sync err" then j else j.fail s!"recover {l.take 60}"
